@@ -7,6 +7,13 @@ HERE = os.path.dirname(os.path.dirname(os.path.abspath(__file__)))
 
 # id -> (category, technique, text, note, design_ref)
 CLAIMED = {
+    "C06": (
+        "model_checking",
+        "exhaustive enumeration of pre-measurement states x measurement variants with a choice-DFS over every answer of the owned random source (stateless search with replay), judged against a phase-space / truncated-Fock reference",
+        "Every state reached by <= 2 operations of an 11-letter Gaussian alphabet on 2 modes (<= 1-2 on 3 modes), deduplicated, is measured on the Gaussian and bosonic simulators (homodyne at 5 angles sampled and post-selected on 3 values, heterodyne sampled and post-selected, photon counting and threshold detection on every ordered subset of modes) and on the Fock simulator pure and mixed (photon counting on every ordered subset with every outcome of up to 2 photons, post-selected homodyne). Every draw of numpy.random / the thewalrus samplers is a choice point: its arguments must be the Born distribution of the reference state, every menu answer is followed, the post-state must be the reference conditional state with the measured modes in vacuum, the returned value must be the answer routed to the right mode; Result.samples columns in ascending mode order for every subset order.",
+        "Decides which distribution the code requests and what it does with each answer, not that numpy/thewalrus sample it faithfully. Finite-squeezing homodyne model of the phase-space simulators compared with the ideal projection to 1e-5. shots = 1 except Gaussian photon counting (2).",
+        "DESIGN.md section 4 (C06)",
+    ),
     "C10": (
         "exploration",
         "exhaustive enumeration of parameter expressions x operation slots x bindings x execution routes, and of measure/re-prepare/use/segment histories, run on the real engine against substituted twins and a last-write reference",
